@@ -160,6 +160,9 @@ func (env *Env) elab(e Expr) (Val, error) {
 		c := *env
 		if x.Kind == "old" {
 			if env.old == nil {
+				if env.fx == nil && env.st == nil {
+					return env.elab(x.X) // pure context: no state
+				}
 				return Val{}, fmt.Errorf("old() not available here")
 			}
 			c.st = env.old
@@ -759,6 +762,16 @@ func (env *Env) elabCall(x ECall) (Val, error) {
 			return Val{T: app("Str", "schr", v.T), GoT: types.Typ[types.String]}, nil
 		}
 		return v, nil
+	case "firstdiff":
+		a, err := env.elab(x.Args[0])
+		if err != nil {
+			return Val{}, err
+		}
+		b, err := env.elab(x.Args[1])
+		if err != nil {
+			return Val{}, err
+		}
+		return Val{T: app("Int", "sfd", a.T, b.T), GoT: mathInt}, nil
 	case "typeof":
 		v, err := env.elab(x.Args[0])
 		if err != nil {
